@@ -37,6 +37,7 @@ import (
 	"google.golang.org/grpc/balancer"
 	"google.golang.org/grpc/balancer/base"
 	grpccodes "google.golang.org/grpc/codes"
+	"google.golang.org/grpc/metadata"
 	"google.golang.org/grpc/resolver"
 	"google.golang.org/grpc/status"
 	"pgregory.net/rapid"
@@ -94,6 +95,26 @@ var (
 		status.Error(grpccodes.Unimplemented, "x"),
 	}
 )
+
+// c14DoneInfo builds the completion report. The statement's score and health clauses
+// depend only on whether the completion is acceptable; every other field of
+// balancer.DoneInfo is a generated dimension (real gRPC reports a status returned by
+// the server with BytesSent = BytesReceived = true and usually a trailer):
+// sel%15 / sel%5 selects the error, bits 0..3 of sel select BytesSent, BytesReceived,
+// a non-empty Trailer and a ServerLoad value; sel ranges over 0..79 (lcm(5,16)).
+func c14DoneInfo(ok bool, sel int) balancer.DoneInfo {
+	if sel < 0 {
+		sel = -sel
+	}
+	di := balancer.DoneInfo{Err: c14Err(ok, sel), BytesSent: sel&1 != 0, BytesReceived: sel&2 != 0}
+	if sel&4 != 0 {
+		di.Trailer = metadata.Pairs("grpc-status-details-bin", "x", "k", "v")
+	}
+	if sel&8 != 0 {
+		di.ServerLoad = &struct{ CPU float64 }{0.5}
+	}
+	return di
+}
 
 func c14Err(ok bool, sel int) error {
 	if sel < 0 {
@@ -430,7 +451,14 @@ func (s *c14Sim) complete(ev c14Pend) {
 		td = now - s.lastDone[i]
 	}
 	s.observe(i, now-ev.start, now, ok)
-	ev.done(balancer.DoneInfo{Err: c14Err(ok, ev.sel)})
+	di := c14DoneInfo(ok, ev.sel)
+	if !ok && di.BytesReceived {
+		s.classes["failure-with-bytes-received"] = true
+	}
+	if ok && di.Err != nil && !di.BytesReceived {
+		s.classes["acceptable-error-without-bytes-received"] = true
+	}
+	ev.done(di)
 	atomic.AddInt64(&s.dones[i], 1)
 	if s.w != nil {
 		s.w.dones[s.gid[i]]++
@@ -495,7 +523,11 @@ func (s *c14Sim) complete(ev c14Pend) {
 					s.classes["unhealthy-checked-multi"] = true
 				}
 				if after > c14Healthy {
-					s.violation("unhealthy-bound", i, "%s: %d failing completions >= %dns apart and success is still %d (> 500)", what, s.badK[i], d, after)
+					if d == math.MaxInt64 {
+						s.violation("unhealthy-bound", i, "%s: the connection's first completion failed (the estimate has no history to weigh against) and success is still %d (> 500)", what, after)
+					} else {
+						s.violation("unhealthy-bound", i, "%s: %d failing completions >= %dns apart and success is still %d (> 500)", what, s.badK[i], d, after)
+					}
 				}
 			}
 		}
@@ -558,7 +590,7 @@ func (s *c14Sim) par(o c14Op) {
 					s.lastDone[i] = now
 				}
 				s.mu.Unlock()
-				res.Done(balancer.DoneInfo{Err: c14Err(ok, o.C+g)})
+				res.Done(c14DoneInfo(ok, o.C+g+4*m))
 				atomic.AddInt64(&s.dones[i], 1)
 			}
 		}(g)
@@ -698,19 +730,19 @@ func c14Gen(rt *rapid.T) c14Case {
 		switch k {
 		case "pick":
 			o.J = rapid.IntRange(0, 32).Draw(rt, "j")
-			o.C = rapid.IntRange(0, 15).Draw(rt, "c")
+			o.C = rapid.IntRange(0, 79).Draw(rt, "c")
 			o.B = rapid.Bool().Draw(rt, "b")
 		case "adv":
 			o.D = rapid.SampledFrom(c14Units).Draw(rt, "unit") * int64(rapid.IntRange(1, 9).Draw(rt, "mul"))
 		case "burst":
 			o.J = rapid.IntRange(0, 16).Draw(rt, "j")
-			o.C = rapid.IntRange(0, 15).Draw(rt, "c")
+			o.C = rapid.IntRange(0, 79).Draw(rt, "c")
 			o.B = rapid.Bool().Draw(rt, "b")
 			o.D = rapid.SampledFrom(c14Gaps).Draw(rt, "gap")
 			o.M = rapid.IntRange(2, 24).Draw(rt, "m")
 		case "par":
 			o.J = rapid.IntRange(0, 8).Draw(rt, "j")
-			o.C = rapid.IntRange(0, 15).Draw(rt, "c")
+			o.C = rapid.IntRange(0, 79).Draw(rt, "c")
 			o.B = rapid.Bool().Draw(rt, "b")
 			o.G = rapid.IntRange(2, 8).Draw(rt, "g")
 			o.M = rapid.IntRange(1, 6).Draw(rt, "m")
@@ -736,7 +768,7 @@ func c14ConcGen(rt *rapid.T) c14Case {
 	for i := 0; i < n; i++ {
 		c.Ops = append(c.Ops, c14Op{K: "par",
 			J: rapid.SampledFrom([]int{0, 0, 1, 8}).Draw(rt, "j"),
-			C: rapid.IntRange(0, 15).Draw(rt, "c"),
+			C: rapid.IntRange(0, 79).Draw(rt, "c"),
 			B: rapid.Bool().Draw(rt, "b"),
 			G: rapid.IntRange(4, 16).Draw(rt, "g"),
 			M: rapid.IntRange(50, 400).Draw(rt, "m"),
@@ -872,8 +904,8 @@ func c14PrefGen(rt *rapid.T) c14PrefCase {
 		Pre: rapid.Int64Range(0, c14Sec).Draw(rt, "pre"),
 		Lat: rapid.SampledFrom(c14PrefLats).Draw(rt, "lat"),
 		Gap: rapid.SampledFrom([]int64{0, 50_000, 300_000, 1_000_000}).Draw(rt, "gap"),
-		UC:  rapid.IntRange(0, 4).Draw(rt, "uc"),
-		HC:  rapid.IntRange(0, 14).Draw(rt, "hc"),
+		UC:  rapid.IntRange(0, 79).Draw(rt, "uc"),
+		HC:  rapid.IntRange(0, 79).Draw(rt, "hc"),
 	}
 	// sample sizes: eps(N) <= 0.8 * 0.25/(1.75 n), i.e. a backend that is NOT avoided at
 	// all (share 1/n like the others) is reported with margin; see c14Preference
@@ -1022,7 +1054,7 @@ func c14StarveGen(rt *rapid.T) c14StarveCase {
 		N:   rapid.SampledFrom([]int{1, 2, 2, 3, 3, 4, 5, 6}).Draw(rt, "n"),
 		Pre: rapid.Int64Range(0, c14Sec).Draw(rt, "pre"),
 		Dur: int64(rapid.IntRange(10, 24).Draw(rt, "dur")) * c14Sec / 2,
-		C:   rapid.IntRange(0, 15).Draw(rt, "c"),
+		C:   rapid.IntRange(0, 79).Draw(rt, "c"),
 	}
 	dm := c14DeltaMax[c.N]
 	c.Delta = dm * int64(rapid.IntRange(5, 20).Draw(rt, "f")) / 20
@@ -1204,7 +1236,7 @@ func c14FastGen(rt *rapid.T) c14FastCase {
 		Delta: rapid.SampledFrom([]int64{100_000, 300_000, 1_000_000, 1_000_000, 3_000_000, 5_000_000, 10_000_000, 20_000_000, 50_000_000}).Draw(rt, "delta"),
 		A:     rapid.IntRange(1, 3).Draw(rt, "a"),
 		Extra: rapid.IntRange(1, 50).Draw(rt, "x"),
-		C:     rapid.IntRange(0, 15).Draw(rt, "c"),
+		C:     rapid.IntRange(0, 79).Draw(rt, "c"),
 	}
 	c.N = 1
 	if c.Delta >= 3_000_000 { // several connections multiply the number of held calls
@@ -1498,7 +1530,7 @@ func c14RbGen(rt *rapid.T) c14RbCase {
 		case "pick", "burst":
 			o.P = rapid.SampledFrom([]int{0, 0, 0, 1, 2}).Draw(rt, "p")
 			o.J = rapid.IntRange(0, 32).Draw(rt, "j")
-			o.C = rapid.IntRange(0, 15).Draw(rt, "c")
+			o.C = rapid.IntRange(0, 79).Draw(rt, "c")
 			o.B = rapid.Bool().Draw(rt, "b")
 			if k == "burst" {
 				o.D = rapid.SampledFrom(c14Gaps).Draw(rt, "gap")
